@@ -132,6 +132,79 @@ theorem replace_missing_refused (names : List Bytes) (n : Bytes) (h : names.elem
 theorem gen_registrations_distinct :
     (Gen.registeredFilters.map (·.1)).Nodup ∧ (Gen.registeredTags.map (·.1)).Nodup := by decide
 
+/-! ### … everywhere filters can be written: inside a list literal
+
+The items of `[a|f, b|g:x]` are filtered terms like any other.  (On the pinned tree the item's
+chain was parsed and then dropped at evaluation — defect D49, fixed in /repo; the model follows the
+fixed code, and the correspondence suites C07/C19 run list literals with chains on their items.) -/
+
+/-- one step: the first item of a list literal is evaluated as the filtered term it is -/
+theorem list_item_is_its_filtered_term (fuel : Nat) (e : Expr) (chain : List FCall) (p : TokPos) (es : List Expr) :
+    evalArrayItems T cfg g (fuel + 1) (.filtered e chain p :: es) =
+      (do let v ← eval T cfg g fuel (.filtered e chain p)
+          let vs ← evalArrayItems T cfg g fuel es
+          pure (v :: vs)) := by
+  rw [evalArrayItems]
+
+/-- a text literal with a chain of literal-parameter filters, as an item of a list literal -/
+def litItem (p : TokPos) (it : Bytes × List (Bytes × Option Val)) : Expr :=
+  .filtered (.str it.1 p) (it.2.map fun c => litCall c.1 c.2 p) p
+
+/-- Spec: the items of a list literal, each the composition of its own chain -/
+def applyItems : List (Bytes × List (Bytes × Option Val)) → Option (List V)
+  | [] => some []
+  | it :: rest =>
+    match applySeq it.2 (mkV (.str it.1)), applyItems rest with
+    | some r, some rs => some (r :: rs)
+    | _, _ => none
+
+/-- **Every item of a list literal carries its own chain**: for list literals of any length whose
+    items are texts with chains of any length, the items of the resulting list are exactly the
+    compositions `fn(… f1(text, a1) …, an)`, item by item, in order. -/
+theorem list_literal_items_apply_their_chains (p : TokPos) (m : Nat) (items : List (Bytes × List (Bytes × Option Val))) :
+    ∀ (rs : List V) (σ : ES) (fuel : Nat), fuel ≥ items.length + m + 4 → (∀ it ∈ items, it.2.length ≤ m) →
+      applyItems items = some rs →
+      (evalArrayItems T cfg g fuel (items.map (litItem p))).run σ = .ok rs σ := by
+  induction items with
+  | nil =>
+    intro rs σ fuel hf _ h
+    simp only [applyItems, Option.some.injEq] at h
+    subst h
+    obtain ⟨n, rfl⟩ : ∃ n, fuel = n + 1 := ⟨fuel - 1, by simp at hf; omega⟩
+    simp [evalArrayItems, EStateM.run, pure, EStateM.pure]
+  | cons it rest ih =>
+    intro rs σ fuel hf hm h
+    simp only [applyItems] at h
+    cases h1 : applySeq it.2 (mkV (.str it.1)) with
+    | none => rw [h1] at h; cases h
+    | some r =>
+      cases h2 : applyItems rest with
+      | none => rw [h1, h2] at h; cases h
+      | some rs' =>
+        rw [h1, h2] at h
+        simp only [Option.some.injEq] at h
+        subst h
+        obtain ⟨n, rfl⟩ : ∃ n, fuel = n + 3 := ⟨fuel - 3, by simp at hf; omega⟩
+        have hlen : it.2.length ≤ m := hm it List.mem_cons_self
+        simp only [List.map_cons, litItem]
+        rw [list_item_is_its_filtered_term]
+        have hitem : (eval T cfg g (n + 2) (.filtered (.str it.1 p) (it.2.map fun c => litCall c.1 c.2 p) p)).run σ = .ok r σ := by
+          rw [eval]
+          have h0 : (eval T cfg g (n + 1) (.str it.1 p)).run σ = .ok (mkV (.str it.1)) σ := by
+            simp [eval, EStateM.run, pure, EStateM.pure]
+          rw [run_bind_ok h0]
+          exact chain_order T cfg g p it.2 _ r σ (n + 1) (by simp at hf; omega) h1
+        rw [run_bind_ok hitem]
+        have hr := ih rs' σ (n + 2) (by simp at hf ⊢; omega) (fun x hx => hm x (List.mem_cons_of_mem _ hx)) h2
+        rw [run_bind_ok hr]
+        rfl
+
+/-- non-vacuity: `["a b"|upper|cut:" ", "x"]` -/
+example : applyItems [(b!"a b", [(b!"upper", none), (b!"cut", some (.str b!" "))]), (b!"x", [])] =
+    some [mkV (.str b!"AB"), mkV (.str b!"x")] := by
+  simp [applyItems, applySeq, applyFilter, paramVal, mkStr, mkV, isAscii, Val.toS, Val.toStr, Val.isNil, Val.rkind, Val.kind, Val.resolved,
+    replaceAll_single, asciiUpper]
+
 /-! ### non-vacuity: "a b"|upper|cut:" " -/
 example : applySeq [(b!"upper", none), (b!"cut", some (.str b!" "))] (mkV (.str b!"a b")) = some (mkV (.str b!"AB")) := by
   simp [applySeq, applyFilter, paramVal, mkStr, mkV, isAscii, Val.toS, Val.toStr, Val.isNil, Val.rkind, Val.kind, Val.resolved,
